@@ -447,10 +447,16 @@ VERUS_UNITS["C12"] = dict(prop="C12", template="contracts/verus/c12.rs.tmpl", ge
 
 
 VERUS_UNITS["C13"] = dict(prop="C13", template="contracts/verus/c13.rs.tmpl", gen_name="c13", ledger="obligations/c13.json", level="other",
-    explanation=("PARTIAL: COUNT-SLIDING WINDOW ONLY (time-sliding windows compare chrono instants and are NOT decided; partitioned variants sit on hash maps). "
-                 "SlidingCountWindow::{new, add_shared, current_count} (window.rs) are extracted mechanically and verified by Verus: after every arrival the retained events are exactly "
-                 "the last min(n, N) events in arrival order; an emission happens EXACTLY when the window is full and at least `slide` events arrived since the previous emission, "
-                 "and it contains exactly the last N events in arrival order; the slide counter is reset on emission and incremented otherwise."),
-    assumptions=["R14: `(c).then(|| e)` is `if c { Some(e) } else { None }`",
-                 "assumed std contracts: VecDeque::drain(0..n) removes the first n elements; iter().map(Arc::clone).collect() copies the contents front to back; usize::saturating_sub",
+    explanation=("PARTIAL: the plain count-sliding and time-sliding windows (NOT the partitioned variants, which sit on hash maps, nor IncrementalSlidingWindow). "
+                 "SlidingCountWindow::{new, add_shared, current_count} and SlidingWindow::{new, add_shared, advance_watermark} (window.rs) are extracted mechanically and verified by "
+                 "Verus. Count-sliding: after every arrival the retained events are exactly the last min(n, N) events in arrival order; an emission happens EXACTLY when the window is "
+                 "full and at least `slide` events arrived since the previous emission, and it contains exactly the last N events in arrival order; the slide counter is reset on "
+                 "emission and incremented otherwise. Time-sliding (in-order streams with ties — the precondition says the arriving event is not earlier than anything retained): after "
+                 "every arrival the retained events are EXACTLY the events of (retained ++ [event]) whose time stamp is >= event time - window_size, in arrival order; an emission happens "
+                 "EXACTLY when there was none before or event time >= previous emission time + slide_interval; it contains exactly the retained events and records the event time as the "
+                 "new emission time; a watermark evicts exactly the events older than wm - window_size and emits under the same rule when something is retained."),
+    assumptions=["chrono model (contracts/verus/chrono_model.rs, R16): DateTime<Utc> / Duration have an integer view and mathematical `+`, `-`, comparisons; overflow panics not modelled",
+                 "R14: `c.then(|| e)` is `if c { Some(e) } else { None }`",
+                 "R17: `q.iter().position(|e| e.timestamp OP t).unwrap_or(q.len())` returns the index of the first element satisfying OP, or the length (assumed contract; OP is an argument)",
+                 "R18/R19: VecDeque::drain(0..n) removes the first n elements; iter().map(Arc::clone).collect() copies the contents front to back; VecDeque::is_empty; usize::saturating_sub (assumed std contracts)",
                  "window_size >= 1; events_since_emit < usize::MAX (2^64 arrivals without an emission would overflow the counter)"])
